@@ -87,20 +87,6 @@ Proof.
   - destruct H as [H1 H2]. now rewrite (IHx1 _ H1), (IHx2 _ H2).
 Qed.
 
-(** a source none of whose unfrozen [write_to]s lets a child process write to the descriptor *)
-Fixpoint fd_free (x : src) : bool :=
-  match x with
-  | SProg _ _ | SRun _ _ _ => false
-  | SConcat _ p q => fd_free p && fd_free q
-  | _ => true
-  end.
-
-Lemma skel_eq_fd_free : forall x y, skel_eq x y -> fd_free y = fd_free x.
-Proof.
-  induction x; destruct y; cbn; try contradiction; intros H; auto.
-  destruct H as [H1 H2]. now rewrite (IHx1 _ H1), (IHx2 _ H2).
-Qed.
-
 (** ** The state invariant *)
 Definition cs_ok (t : text) (st : cstate) : Prop :=
   (c_path st = None \/ c_path st = Some t) /\
@@ -115,7 +101,7 @@ Fixpoint Inv (x : src) : Prop :=
       Inv u /\ lf_ok f /\ (path = None \/ path = Some (concat (f (lines_lf (den u)))))
   | SFilter f st u => Inv u /\ lf_ok f /\ cs_ok (concat (f (lines_lf (den u)))) st
   | SRun g st u => Inv u /\ g_ok g /\ cs_ok (g (den u)) st
-  | SConcat st p q => Inv p /\ Inv q /\ fd_free p = true /\ fd_free q = true /\ cs_ok (den p ++ den q) st
+  | SConcat st p q => Inv p /\ Inv q /\ cs_ok (den p ++ den q) st
   end.
 
 Lemma inv_den_ok : forall x, Inv x -> text_ok (den x) = true.
@@ -143,19 +129,19 @@ Qed.
 Lemma good_fz_views : forall t z, text_ok t = true -> good_fz t z ->
   fz_lines z = Some (lines_lf t) /\ fz_str z = Some t /\ fz_file z = Some (FText t) /\
   (exists d, fz_dep z = Some d) /\
-  (exists e, fz_write z = Some [e] /\ wev_text e = t /\ is_fd e = false).
+  (exists e, fz_write z = Some [e] /\ wev_text e = t).
 Proof.
   intros t z Ht [ -> | [ -> | -> ] ]; cbn [fz_lines fz_str fz_file fz_dep fz_write].
   - rewrite str_lines_ok by exact Ht. rewrite file_of_events_single. cbn [wev_text]. unfold write_text.
     split; [reflexivity|]. split; [reflexivity|]. split; [reflexivity|]. split; [eauto|].
-    exists (WStr t). split; [reflexivity|]. split; reflexivity.
+    exists (WStr t). split; reflexivity.
   - rewrite file_lines_ok, read_text_ok by exact Ht.
     split; [reflexivity|]. split; [reflexivity|]. split; [reflexivity|]. split; [eauto|].
-    exists (WLines (lines_lf t)). cbn [wev_text is_fd]. unfold write_text. rewrite concat_lines_lf.
-    split; [reflexivity|]. split; reflexivity.
+    exists (WLines (lines_lf t)). cbn [wev_text]. unfold write_text. rewrite concat_lines_lf.
+    split; reflexivity.
   - rewrite str_lines_ok by exact Ht.
     split; [reflexivity|]. split; [reflexivity|]. split; [reflexivity|]. split; [eauto|].
-    exists (WStr t). split; [reflexivity|]. split; reflexivity.
+    exists (WStr t). split; reflexivity.
 Qed.
 
 Lemma cs_ok_set_path : forall t st, cs_ok t st -> cs_ok t (cs_set_path st t).
@@ -324,8 +310,7 @@ Definition lines_spec (b : N) (x : src) : Prop :=
 Definition file_spec (b : N) (x : src) : Prop :=
   exists x', s_file b x = (Some (FText (den x)), x') /\ Inv x' /\ skel_eq x x'.
 Definition write_spec (b : N) (x : src) : Prop :=
-  exists evs x', s_write b x = (Some evs, x') /\ Inv x' /\ skel_eq x x' /\ text_of evs = den x /\
-                 (fd_free x = true -> no_fd evs = true).
+  exists evs x', s_write b x = (Some evs, x') /\ Inv x' /\ skel_eq x x' /\ text_of evs = den x.
 
 Local Ltac fin := split; [reflexivity | split; [cbn [Inv]; auto | cbn [skel_eq]; auto using skel_eq_refl]].
 
@@ -345,15 +330,15 @@ Proof.
     split; [|split].
     + exists (SStr s). cbn [s_lines den]. rewrite str_lines_ok by exact H. fin.
     + exists (SStr s). cbn [s_file den]. rewrite file_of_str. fin.
-    + exists [WStr s], (SStr s). cbn [s_write den]. rewrite text_of_str. repeat split; auto.
+    + exists [WStr s], (SStr s). cbn [s_write den]. rewrite text_of_str. split; [reflexivity|]. split; [exact H|]. split; reflexivity.
   - (* SFile *)
     split; [|split].
     + exists (SFile r). cbn [s_lines den]. fin.
     + exists (SFile r). cbn [s_file den]. rewrite (read_text_ok r H). fin.
     + exists [WLines (file_lines r)], (SFile r). cbn [s_write den]. rewrite text_of_lines.
-      unfold file_lines. rewrite concat_lines_lf. repeat split; auto.
+      unfold file_lines. rewrite concat_lines_lf. split; [reflexivity|]. split; [exact H|]. split; reflexivity.
   - (* SProg *)
-    destruct H as [Ho Hs]. cbn [s_lines s_file s_write den fd_free]. rewrite (read_text_ok out Ho).
+    destruct H as [Ho Hs]. cbn [s_lines s_file s_write den]. rewrite (read_text_ok out Ho).
     pose proof (text_of_prog_write out st Ho Hs) as Ew.
     destruct (c_isfz st) eqn:Ef.
     + split; [|split].
@@ -366,15 +351,15 @@ Proof.
       * pose proof Hs as [Hp [Hz|[z [Hz G]]]].
         -- destruct (frozen_from_events b (prog_write out st)) as [z [Ez Gz]];
              [rewrite Ew; now apply text_ok_valid | rewrite Ew; now apply read_text_ok |].
-           rewrite Ew in Gz. destruct (good_fz_views out z Ho Gz) as [_ [_ [_ [_ [e [Vw [Te Fe]]]]]]].
+           rewrite Ew in Gz. destruct (good_fz_views out z Ho Gz) as [_ [_ [_ [_ [e [Vw Te]]]]]].
            unfold via_frozen, cached_get. rewrite Hz, Ez. cbn [obind]. rewrite Vw.
            exists [e], (SProg out (cs_set_fz st z)). split; [reflexivity|]. split.
            { cbn [Inv]. split; [exact Ho|]. split; [exact Hp | right; exists z; auto]. }
-           split; [reflexivity|]. split; [unfold text_of; cbn; now rewrite app_nil_r | discriminate].
-        -- destruct (good_fz_views out z Ho G) as [_ [_ [_ [_ [e [Vw [Te Fe]]]]]]].
+           split; [reflexivity|]. unfold text_of; cbn; now rewrite app_nil_r.
+        -- destruct (good_fz_views out z Ho G) as [_ [_ [_ [_ [e [Vw Te]]]]]].
            unfold via_frozen, cached_get. rewrite Hz. cbn [obind]. rewrite Vw.
            exists [e], (SProg out st). split; [reflexivity|]. split; [cbn [Inv]; auto|].
-           split; [reflexivity|]. split; [unfold text_of; cbn; now rewrite app_nil_r | discriminate].
+           split; [reflexivity|]. unfold text_of; cbn; now rewrite app_nil_r.
     + split; [|split].
       * pose proof Hs as [[Hp|Hp] Hz]; rewrite Hp.
         -- rewrite file_of_fd. rewrite file_lines_ok by exact Ho.
@@ -384,10 +369,10 @@ Proof.
         -- rewrite file_of_fd. exists (SProg out (cs_set_path st out)). pose proof (cs_ok_set_path out st Hs). fin.
         -- exists (SProg out st). fin.
       * exists (prog_write out st), (SProg out st). split; [reflexivity|]. split; [cbn [Inv]; auto|].
-        split; [reflexivity|]. split; [exact Ew | discriminate].
+        split; [reflexivity|]. exact Ew.
   - (* SLines *)
     destruct H as [Hu [Hf Hp]]. destruct (IH Hu) as [[u' [E [Iu' Su]]] _].
-    cbn [s_lines s_file s_write den fd_free]. rewrite E. cbn [option_map].
+    cbn [s_lines s_file s_write den]. rewrite E. cbn [option_map].
     assert (I' : forall path', (path' = None \/ path' = Some (concat (f (lines_lf (den u))))) -> Inv (SLines f dep path' isfz u')).
     { intros path' Hp'. cbn [Inv]. rewrite (skel_eq_den _ _ Su). auto. }
     split; [|split].
@@ -398,9 +383,9 @@ Proof.
         split; [reflexivity|]. split; [apply I'; now right | cbn; auto].
       * exists (SLines f dep (Some (concat (f (lines_lf (den u))))) isfz u). fin.
     + exists [WLines (f (lines_lf (den u)))], (SLines f dep path isfz u'). split; [reflexivity|].
-      split; [now apply I'|]. split; [cbn; auto|]. split; [apply text_of_lines | reflexivity].
+      split; [now apply I'|]. split; [cbn; auto|]. apply text_of_lines.
   - (* SFilter *)
-    destruct H as [Hu [Hf Hs]]. cbn [s_lines s_file s_write den fd_free].
+    destruct H as [Hu [Hf Hs]]. cbn [s_lines s_file s_write den].
     set (t := concat (f (lines_lf (den u)))) in *.
     assert (Ht : text_ok t = true) by (apply good_lines_concat_ok, Hf, good_lines_of_text, inv_den_ok, Hu).
     destruct (IH Hu) as [[u' [E [Iu' Su]]] _].
@@ -410,13 +395,12 @@ Proof.
     destruct (c_isfz st) eqn:Ef.
     + destruct (c_fz st) as [z|] eqn:Hz.
       * pose proof (frozen_known t st z Hs Hz) as G.
-        destruct (good_fz_views t z Ht G) as [V1 [_ [V3 [_ [e [Vw [Te Fe]]]]]]].
+        destruct (good_fz_views t z Ht G) as [V1 [_ [V3 [_ [e [Vw Te]]]]]].
         split; [|split].
         -- rewrite V1. exists (SFilter f st u). fin.
         -- rewrite V3. exists (SFilter f st u). fin.
         -- rewrite Vw. exists [e], (SFilter f st u). split; [reflexivity|]. split; [cbn [Inv]; auto|].
-           split; [apply skel_eq_refl|]. split; [unfold text_of; cbn; now rewrite app_nil_r|].
-           intros _. cbn. now rewrite Fe.
+           split; [apply skel_eq_refl|]. unfold text_of; cbn; now rewrite app_nil_r.
       * rewrite E. cbn [option_map]. split; [|split].
         -- destruct (via_frozen_ok b t st _ fz_lines (lines_lf t) Ht Hs Ew) as [st' [E2 Hs']].
            { intros z G. apply (good_fz_views t z Ht G). }
@@ -426,12 +410,11 @@ Proof.
            rewrite E2. exists (SFilter f st' u'). split; [reflexivity|]. split; [now apply I' | cbn; auto].
         -- destruct (frozen_from_events b [WLines (f (lines_lf (den u)))]) as [z [Ez Gz]];
              [rewrite Ew; now apply text_ok_valid | rewrite Ew; now apply read_text_ok |].
-           rewrite Ew in Gz. destruct (good_fz_views t z Ht Gz) as [_ [_ [_ [_ [e [Vw [Te Fe]]]]]]].
+           rewrite Ew in Gz. destruct (good_fz_views t z Ht Gz) as [_ [_ [_ [_ [e [Vw Te]]]]]].
            unfold via_frozen, cached_get. rewrite Hz, Ez. cbn [obind]. rewrite Vw.
            exists [e], (SFilter f (cs_set_fz st z) u'). split; [reflexivity|]. split.
            { apply I'. destruct Hs as [Hp _]. split; [exact Hp | right; exists z; auto]. }
-           split; [cbn; auto|]. split; [unfold text_of; cbn; now rewrite app_nil_r|].
-           intros _. cbn. now rewrite Fe.
+           split; [cbn; auto|]. unfold text_of; cbn; now rewrite app_nil_r.
     + rewrite E. cbn [option_map]. split; [|split].
       * exists (SFilter f st u'). unfold t. rewrite <- den_lines_canonical by assumption.
         split; [reflexivity|]. split; [now apply I' | cbn; auto].
@@ -440,9 +423,9 @@ Proof.
            split; [apply I'; now apply cs_ok_set_path | cbn; auto].
         -- exists (SFilter f st u). fin.
       * exists [WLines (f (lines_lf (den u)))], (SFilter f st u'). split; [reflexivity|].
-        split; [now apply I'|]. split; [cbn; auto|]. split; [exact Ew | reflexivity].
+        split; [now apply I'|]. split; [cbn; auto|]. exact Ew.
   - (* SRun *)
-    destruct H as [Hu [Hg Hs]]. cbn [s_lines s_file s_write den fd_free]. rewrite (den_run g u Hu Hg).
+    destruct H as [Hu [Hg Hs]]. cbn [s_lines s_file s_write den]. rewrite (den_run g u Hu Hg).
     set (t := g (den u)) in *.
     assert (Ht : text_ok t = true) by (apply Hg, inv_den_ok, Hu).
     destruct (IH Hu) as [_ [[u' [E [Iu' Su]]] _]].
@@ -454,12 +437,12 @@ Proof.
     destruct (c_isfz st) eqn:Ef.
     + destruct (c_fz st) as [z|] eqn:Hz.
       * pose proof (frozen_known t st z Hs Hz) as G.
-        destruct (good_fz_views t z Ht G) as [V1 [_ [V3 [_ [e [Vw [Te Fe]]]]]]].
+        destruct (good_fz_views t z Ht G) as [V1 [_ [V3 [_ [e [Vw Te]]]]]].
         split; [|split].
         -- rewrite V1. exists (SRun g st u). fin.
         -- rewrite V3. exists (SRun g st u). fin.
         -- rewrite Vw. exists [e], (SRun g st u). split; [reflexivity|]. split; [cbn [Inv]; auto|].
-           split; [apply skel_eq_refl|]. split; [unfold text_of; cbn; now rewrite app_nil_r | discriminate].
+           split; [apply skel_eq_refl|]. unfold text_of; cbn; now rewrite app_nil_r.
       * pose proof Hs as [[Hp|Hp] _]; rewrite Hp.
         -- (* no cached file: the program is run on the operand's file *)
            rewrite E. cbn [run_on]. fold t. split; [|split].
@@ -471,11 +454,11 @@ Proof.
               rewrite E2. exists (SRun g st' u'). split; [reflexivity|]. split; [now apply I' | cbn; auto].
            ++ destruct (frozen_from_events b [WFd t]) as [z [Ez Gz]];
                 [rewrite Ew; now apply text_ok_valid | rewrite Ew; now apply read_text_ok |].
-              rewrite Ew in Gz. destruct (good_fz_views t z Ht Gz) as [_ [_ [_ [_ [e [Vw [Te Fe]]]]]]].
+              rewrite Ew in Gz. destruct (good_fz_views t z Ht Gz) as [_ [_ [_ [_ [e [Vw Te]]]]]].
               unfold via_frozen, cached_get. rewrite Hz, Ez. cbn [obind]. rewrite Vw.
               exists [e], (SRun g (cs_set_fz st z) u'). split; [reflexivity|]. split.
               { apply I'. destruct Hs as [Hp' _]. split; [exact Hp' | right; exists z; auto]. }
-              split; [cbn; auto|]. split; [unfold text_of; cbn; now rewrite app_nil_r | discriminate].
+              split; [cbn; auto|]. unfold text_of; cbn; now rewrite app_nil_r.
         -- (* the cached file is copied *)
            split; [|split].
            ++ destruct (via_frozen_ok b t st _ fz_lines (lines_lf t) Ht Hs Ew2) as [st' [E2 Hs']].
@@ -486,11 +469,11 @@ Proof.
               rewrite E2. exists (SRun g st' u). fin.
            ++ destruct (frozen_from_events b [WLines (file_lines t)]) as [z [Ez Gz]];
                 [rewrite Ew2; now apply text_ok_valid | rewrite Ew2; now apply read_text_ok |].
-              rewrite Ew2 in Gz. destruct (good_fz_views t z Ht Gz) as [_ [_ [_ [_ [e [Vw [Te Fe]]]]]]].
+              rewrite Ew2 in Gz. destruct (good_fz_views t z Ht Gz) as [_ [_ [_ [_ [e [Vw Te]]]]]].
               unfold via_frozen, cached_get. rewrite Hz, Ez. cbn [obind]. rewrite Vw.
               exists [e], (SRun g (cs_set_fz st z) u). split; [reflexivity|]. split.
               { cbn [Inv]. split; [exact Hu|]. split; [exact Hg|]. destruct Hs as [Hp' _]. split; [exact Hp' | right; exists z; auto]. }
-              split; [cbn [skel_eq]; auto using skel_eq_refl|]. split; [unfold text_of; cbn; now rewrite app_nil_r | discriminate].
+              split; [cbn [skel_eq]; auto using skel_eq_refl|]. unfold text_of; cbn; now rewrite app_nil_r.
     + pose proof Hs as [[Hp|Hp] _]; rewrite Hp.
       * rewrite E. cbn [run_on]. fold t. rewrite file_of_fd. split; [|split].
         -- rewrite file_lines_ok by exact Ht. exists (SRun g (cs_set_path st t) u'). split; [reflexivity|].
@@ -498,33 +481,30 @@ Proof.
         -- exists (SRun g (cs_set_path st t) u'). split; [reflexivity|].
            split; [apply I'; now apply cs_ok_set_path | cbn; auto].
         -- exists [WFd t], (SRun g st u'). split; [reflexivity|]. split; [now apply I'|].
-           split; [cbn; auto|]. split; [exact Ew | discriminate].
+           split; [cbn; auto|]. exact Ew.
       * split; [|split].
         -- rewrite file_lines_ok by exact Ht. exists (SRun g st u). fin.
         -- exists (SRun g st u). fin.
         -- exists [WLines (file_lines t)], (SRun g st u). split; [reflexivity|]. split; [cbn [Inv]; auto|].
-           split; [apply skel_eq_refl|]. split; [exact Ew2 | discriminate].
+           split; [apply skel_eq_refl|]. exact Ew2.
   - (* SConcat *)
-    destruct H as [Hp [Hq [Fp [Fq Hs]]]]. cbn [s_lines s_file s_write den fd_free]. rewrite Fp, Fq. cbn [andb].
+    destruct H as [Hp [Hq Hs]]. cbn [s_lines s_file s_write den].
     set (t := den p ++ den q) in *.
     assert (Ht : text_ok t = true) by (unfold t; rewrite text_ok_app, (inv_den_ok p Hp), (inv_den_ok q Hq); reflexivity).
-    destruct (IHp Hp) as [[p1 [Elp [Ip1 Sp1]]] [_ [wp [p2 [Ewp [Ip2 [Sp2 [Twp Nwp]]]]]]]].
-    destruct (IHq Hq) as [[q1 [Elq [Iq1 Sq1]]] [_ [wq [q2 [Ewq [Iq2 [Sq2 [Twq Nwq]]]]]]]].
+    destruct (IHp Hp) as [[p1 [Elp [Ip1 Sp1]]] [_ [wp [p2 [Ewp [Ip2 [Sp2 Twp]]]]]]].
+    destruct (IHq Hq) as [[q1 [Elq [Iq1 Sq1]]] [_ [wq [q2 [Ewq [Iq2 [Sq2 Twq]]]]]]].
     assert (I' : forall st' p' q', cs_ok t st' -> Inv p' -> Inv q' -> skel_eq p p' -> skel_eq q q' -> Inv (SConcat st' p' q')).
-    { intros st' p' q' Hs' Ip' Iq' Sp' Sq'. cbn [Inv]. rewrite (skel_eq_den _ _ Sp'), (skel_eq_den _ _ Sq').
-      rewrite (skel_eq_fd_free _ _ Sp'), (skel_eq_fd_free _ _ Sq'). auto. }
+    { intros st' p' q' Hs' Ip' Iq' Sp' Sq'. cbn [Inv]. rewrite (skel_eq_den _ _ Sp'), (skel_eq_den _ _ Sq'). auto. }
     assert (Ew : text_of (wp ++ wq) = t) by (rewrite text_of_app, Twp, Twq; reflexivity).
-    assert (Nw : no_fd (wp ++ wq) = true) by (rewrite no_fd_app, (Nwp Fp), (Nwq Fq); reflexivity).
     destruct (c_isfz st) eqn:Ef.
     + destruct (c_fz st) as [z|] eqn:Hz.
       * pose proof (frozen_known t st z Hs Hz) as G.
-        destruct (good_fz_views t z Ht G) as [V1 [_ [V3 [_ [e [Vw [Te Fe]]]]]]].
+        destruct (good_fz_views t z Ht G) as [V1 [_ [V3 [_ [e [Vw Te]]]]]].
         split; [|split].
         -- rewrite V1. exists (SConcat st p q). fin.
         -- rewrite V3. exists (SConcat st p q). fin.
         -- rewrite Vw. exists [e], (SConcat st p q). split; [reflexivity|]. split; [cbn [Inv]; auto|].
-           split; [apply skel_eq_refl|]. split; [unfold text_of; cbn; now rewrite app_nil_r|].
-           intros _. cbn. now rewrite Fe.
+           split; [apply skel_eq_refl|]. unfold text_of; cbn; now rewrite app_nil_r.
       * rewrite Ewp, Ewq. cbn [oapp]. split; [|split].
         -- destruct (via_frozen_ok b t st _ fz_lines (lines_lf t) Ht Hs Ew) as [st' [E2 Hs']].
            { intros z G. apply (good_fz_views t z Ht G). }
@@ -534,23 +514,22 @@ Proof.
            rewrite E2. exists (SConcat st' p2 q2). split; [reflexivity|]. split; [now apply I' | cbn; auto].
         -- destruct (frozen_from_events b (wp ++ wq)) as [z [Ez Gz]];
              [rewrite Ew; now apply text_ok_valid | rewrite Ew; now apply read_text_ok |].
-           rewrite Ew in Gz. destruct (good_fz_views t z Ht Gz) as [_ [_ [_ [_ [e [Vw [Te Fe]]]]]]].
+           rewrite Ew in Gz. destruct (good_fz_views t z Ht Gz) as [_ [_ [_ [_ [e [Vw Te]]]]]].
            unfold via_frozen, cached_get. rewrite Hz, Ez. cbn [obind]. rewrite Vw.
            exists [e], (SConcat (cs_set_fz st z) p2 q2). split; [reflexivity|]. split.
            { apply I'; auto. destruct Hs as [Hp' _]. split; [exact Hp' | right; exists z; auto]. }
-           split; [cbn; auto|]. split; [unfold text_of; cbn; now rewrite app_nil_r|].
-           intros _. cbn. now rewrite Fe.
+           split; [cbn; auto|]. unfold text_of; cbn; now rewrite app_nil_r.
     + split; [|split].
       * rewrite Elp, Elq. cbn [olines2].
         rewrite concat_lines2_ok by apply wf_lines_lines_lf. rewrite !concat_lines_lf. fold t.
         exists (SConcat st p1 q1). split; [reflexivity|]. split; [now apply I' | cbn; auto].
       * pose proof Hs as [[Hpa|Hpa] _]; rewrite Hpa.
-        -- rewrite Ewp, Ewq. cbn [oapp]. rewrite file_of_events_no_fd by exact Nw. rewrite Ew.
+        -- rewrite Ewp, Ewq. cbn [oapp]. rewrite file_of_events_text. rewrite Ew.
            exists (SConcat (cs_set_path st t) p2 q2). split; [reflexivity|].
            split; [apply I'; auto; now apply cs_ok_set_path | cbn; auto].
         -- exists (SConcat st p q). fin.
       * rewrite Ewp, Ewq. cbn [oapp]. exists (wp ++ wq), (SConcat st p2 q2). split; [reflexivity|].
-        split; [now apply I'|]. split; [cbn; auto|]. split; [exact Ew | intros _; exact Nw].
+        split; [now apply I'|]. split; [cbn; auto|]. exact Ew.
 Qed.
 
 Lemma s_lines_ok : forall b x, Inv x -> lines_spec b x.
@@ -620,14 +599,13 @@ Proof.
            { intros z G. apply (good_fz_views t z Ot G). }
            rewrite E2. exists (SRun g st' u). fin.
     + apply str_via_file_ok; [exact H | now apply read_text_ok].
-  - cbn [Inv] in H. destruct H as [Hp [Hq [Fp [Fq Hs]]]]. cbn [s_str den] in *.
+  - cbn [Inv] in H. destruct H as [Hp [Hq Hs]]. cbn [s_str den] in *.
     set (t := den p ++ den q) in *.
     destruct (s_lines_ok b p Hp) as [p1 [Elp [Ip1 Sp1]]]. destruct (s_lines_ok b q Hq) as [q1 [Elq [Iq1 Sq1]]].
-    destruct (s_write_ok b p Hp) as [wp [p2 [Ewp [Ip2 [Sp2 [Twp Nwp]]]]]].
-    destruct (s_write_ok b q Hq) as [wq [q2 [Ewq [Iq2 [Sq2 [Twq Nwq]]]]]].
+    destruct (s_write_ok b p Hp) as [wp [p2 [Ewp [Ip2 [Sp2 Twp]]]]].
+    destruct (s_write_ok b q Hq) as [wq [q2 [Ewq [Iq2 [Sq2 Twq]]]]].
     assert (I' : forall st' p' q', cs_ok t st' -> Inv p' -> Inv q' -> skel_eq p p' -> skel_eq q q' -> Inv (SConcat st' p' q')).
-    { intros st' p' q' Hs' Ip' Iq' Sp' Sq'. cbn [Inv]. rewrite (skel_eq_den _ _ Sp'), (skel_eq_den _ _ Sq').
-      rewrite (skel_eq_fd_free _ _ Sp'), (skel_eq_fd_free _ _ Sq'). auto. }
+    { intros st' p' q' Hs' Ip' Iq' Sp' Sq'. cbn [Inv]. rewrite (skel_eq_den _ _ Sp'), (skel_eq_den _ _ Sq'). auto. }
     destruct (c_isfz st) eqn:Ef.
     + destruct (c_fz st) as [z|] eqn:Hz.
       * pose proof (frozen_known t st z Hs Hz) as G. destruct (good_fz_views t z Ot G) as [_ [V _]]. rewrite V.
@@ -706,17 +684,16 @@ Proof.
         exists d, (SRun g (cs_set_fz st z) u). split; [reflexivity|]. split; [|cbn; auto using skel_eq_refl].
         cbn [Inv]. split; [exact Hu|]. split; [exact Hg|].
         destruct Hs as [Hp' _]. split; [exact Hp' | right; exists z; auto].
-  - destruct H as [Hp [Hq [Fp [Fq Hs]]]]. cbn [s_dep den] in *.
+  - destruct H as [Hp [Hq Hs]]. cbn [s_dep den] in *.
     set (t := den p ++ den q) in *.
     assert (V : forall z, good_fz t z -> exists d, fz_dep z = Some d) by (intros z G; apply (good_fz_views t z Ot G)).
     assert (I' : forall st' p' q', cs_ok t st' -> Inv p' -> Inv q' -> skel_eq p p' -> skel_eq q q' -> Inv (SConcat st' p' q')).
-    { intros st' p' q' Hs' Ip' Iq' Sp' Sq'. cbn [Inv]. rewrite (skel_eq_den _ _ Sp'), (skel_eq_den _ _ Sq').
-      rewrite (skel_eq_fd_free _ _ Sp'), (skel_eq_fd_free _ _ Sq'). auto. }
+    { intros st' p' q' Hs' Ip' Iq' Sp' Sq'. cbn [Inv]. rewrite (skel_eq_den _ _ Sp'), (skel_eq_den _ _ Sq'). auto. }
     destruct (c_isfz st) eqn:Ef.
     + destruct (c_fz st) as [z|] eqn:Hz.
       * destruct (V z (frozen_known t st z Hs Hz)) as [d Vd]. rewrite Vd. exists d, (SConcat st p q). fin.
-      * destruct (s_write_ok b p Hp) as [wp [p2 [Ewp [Ip2 [Sp2 [Twp Nwp]]]]]].
-        destruct (s_write_ok b q Hq) as [wq [q2 [Ewq [Iq2 [Sq2 [Twq Nwq]]]]]].
+      * destruct (s_write_ok b p Hp) as [wp [p2 [Ewp [Ip2 [Sp2 Twp]]]]].
+        destruct (s_write_ok b q Hq) as [wq [q2 [Ewq [Iq2 [Sq2 Twq]]]]].
         rewrite Ewp, Ewq. cbn [oapp].
         assert (Ew : text_of (wp ++ wq) = t) by (rewrite text_of_app, Twp, Twq; reflexivity).
         destruct (frozen_from_events b (wp ++ wq)) as [z [Ez Gz]];
@@ -746,7 +723,7 @@ Proof.
   - destruct H as [Hu [Hg Hs]]. split.
     + cbn [Inv]. split; [exact Hu|]. split; [exact Hg|]. now apply cs_ok_freeze.
     + cbn. split; [reflexivity | apply skel_eq_refl].
-  - destruct H as [Hp [Hq [Fp [Fq Hs]]]]. split.
+  - destruct H as [Hp [Hq Hs]]. split.
     + cbn [Inv]. repeat (split; [assumption|]). now apply cs_ok_freeze.
     + cbn. split; apply skel_eq_refl.
 Qed.
@@ -776,16 +753,14 @@ Proof.
 Qed.
 
 (** ** The guard on the INPUT and the initial state *)
-(** every line transformation and every external program of the expression is admitted; the parts of
-    a concatenation do not let a child process write to the descriptor of the output file (known
-    finding KF-C14-3: the file object is not flushed before) *)
+(** every line transformation and every external program of the expression is admitted *)
 Fixpoint lfs_ok (x : src) : Prop :=
   match x with
   | SStr _ | SFile _ | SProg _ _ => True
   | SLines f _ _ _ u => lf_ok f /\ lfs_ok u
   | SFilter f _ u => lf_ok f /\ lfs_ok u
   | SRun g _ u => g_ok g /\ lfs_ok u
-  | SConcat _ p q => lfs_ok p /\ lfs_ok q /\ fd_free p = true /\ fd_free q = true
+  | SConcat _ p q => lfs_ok p /\ lfs_ok q
   end.
 
 (** every text of the expression is admitted *)
@@ -821,8 +796,8 @@ Proof.
   - destruct F as [-> [-> F]]. destruct K as [K1 K2]. auto.
   - destruct F as [-> F]. destruct K as [K1 K2]. split; [auto|]. split; [exact K1 | apply cs_ok_cs0].
   - destruct F as [-> F]. destruct K as [K1 K2]. split; [auto|]. split; [exact K1 | apply cs_ok_cs0].
-  - destruct F as [-> [F1 F2]]. destruct K as [K1 [K2 [K3 K4]]]. apply andb_true_iff in L as [L1 L2].
-    split; [auto|]. split; [auto|]. split; [exact K3|]. split; [exact K4 | apply cs_ok_cs0].
+  - destruct F as [-> [F1 F2]]. destruct K as [K1 K2]. apply andb_true_iff in L as [L1 L2].
+    split; [auto|]. split; [auto | apply cs_ok_cs0].
 Qed.
 
 Theorem views_agree : forall x b accs,
